@@ -15,21 +15,30 @@ S = Search('C10', 'random pipelines as in C09 with 1-3 example pumps x {torque, 
                   'that roughly half of the systems have an intersection and short torque-limited lines make the head gap jump through zero; distinct = distinct system')
 rng = random.Random(seed())
 warnings.simplefilter('ignore')
-for i in range(S.budget):
-    npipes = rng.randint(2, 5)
-    d = rng.choice([0.5, 0.6, 0.762, 0.8636])
-    secs = [('P', d * rng.choice([1.0, 1.13]), 0.0, 0.5, -rng.uniform(3, 12))]
-    npumps = rng.randint(1, 3)
-    # short lines too: there a torque limit makes the head gap JUMP through zero (no genuine intersection)
-    total = rng.choice([rng.uniform(20, 200), rng.uniform(200, 1500), rng.uniform(1000, 6000) * npumps])
-    for k in range(npipes - 1):
-        if k < npumps:
-            secs.append(('U', k))
-        secs.append(('P', d, total / (npipes - 1), rng.uniform(0, 1.5), rng.uniform(-2, 4)))
-    sp = pc.random_slurry_params(rng)
-    sp['D50'] = math.exp(rng.uniform(math.log(1.2e-4), math.log(3e-3)))
-    mode = rng.choice(['torque', 'power', 'None'])
-    where = {'sections': secs, 'slurry': sp, 'mode': mode}
+import json
+import os
+# regression corpus: the real systems on which find_operating_point / qimin failed before their repairs run first
+CORPUS = json.load(open(os.path.join(os.path.dirname(os.path.abspath(__file__)), 'corpus_C10.json')))
+for i in range(len(CORPUS) + S.budget):
+    if i < len(CORPUS):
+        where = {k: v for k, v in CORPUS[i].items() if k != 'note'}
+        where['sections'] = [tuple(x) for x in where['sections']]
+        secs, sp, mode = where['sections'], where['slurry'], where['mode']
+    else:
+        npipes = rng.randint(2, 5)
+        d = rng.choice([0.5, 0.6, 0.762, 0.8636])
+        secs = [('P', d * rng.choice([1.0, 1.13]), 0.0, 0.5, -rng.uniform(3, 12))]
+        npumps = rng.randint(1, 3)
+        # short lines too: there a torque limit makes the head gap JUMP through zero (no genuine intersection)
+        total = rng.choice([rng.uniform(20, 200), rng.uniform(200, 1500), rng.uniform(1000, 6000) * npumps])
+        for k in range(npipes - 1):
+            if k < npumps:
+                secs.append(('U', k))
+            secs.append(('P', d, total / (npipes - 1), rng.uniform(0, 1.5), rng.uniform(-2, 4)))
+        sp = pc.random_slurry_params(rng)
+        sp['D50'] = math.exp(rng.uniform(math.log(1.2e-4), math.log(3e-3)))
+        mode = rng.choice(['torque', 'power', 'None'])
+        where = {'sections': secs, 'slurry': sp, 'mode': mode}
     try:
         pl = pc.make_pipeline(rng, secs, sp, limited=mode, record=where)
         flow_list = [PipeObj.Pipe(diameter=pl.slurry.Dp).flow(v) for v in pl.slurry.vls_list]
